@@ -3,6 +3,8 @@
    (e = None: min_interval omitted or "auto"; e = Some d: explicit).  [r] is the value drawn by
    Int63n(max - min), any value of its range.  Literals: 3 advertisements, 16 s, 4 s..1800 s. *)
 From CR Require Import Model.Delay Proofs.Delay.
+(* the code computes instants and durations on one clock (extracted): one_clock in Properties/Clock.v *)
+From CR Require Properties.Clock.
 From Coq Require Import Lia.
 Local Open Scope Z_scope.
 
